@@ -267,7 +267,11 @@ func (g *genState) writeOp() {
 	switch {
 	case x < wIns:
 		o := g.newObj()
-		g.emit("insert %d %s", tab, g.objArgs(o))
+		word := "insert"
+		if g.r.Chance(g.weight(8, "C06", 5)) {
+			word = "insertw" // InsertWatch: the channel closes when that object is next changed
+		}
+		g.emit("%s %d %s", word, tab, g.objArgs(o))
 		g.sh.modify(tab, "insert", 0, o, g.open)
 	case x < wMod:
 		o := g.newObj()
